@@ -462,6 +462,9 @@ func runCase(seed int64, idx int, pr params) *caseResult {
 		}
 	}
 	s.exec(Op{Kind: "quiesce"}, nil, nil)
+	if pr.prop == "C06" && idx%4 == 3 && s.ownAlarms() == 0 {
+		s.interleaveFilterReload()
+	}
 	if pr.prop == "C03" && idx%3 == 2 && s.ownAlarms() == 0 {
 		// C03's deployment clause under overlapping unbinds (the history's end state is the starting point)
 		s.interleaveDpUnbinds()
